@@ -92,6 +92,7 @@ def check_probe(R, case, raw):
 
 def run_history(R, level, steps, ctx_engine, boots0, report_ctx=None, two_step=False):
     env.CLOCK.freeze(1_700_000_000.0)
+    env.CLOCK.wall_offset = 0.0
     ckw = {"engine_id": ctx_engine} if ctx_engine else {}
     w = World(level, DB, client_kwargs=ckw, agent_kwargs={"boots": boots0, "any_context": bool(ctx_engine)})
     if report_ctx is not None:
@@ -124,6 +125,12 @@ def run_history(R, level, steps, ctx_engine, boots0, report_ctx=None, two_step=F
                 w.agent.reboot()
                 reboots += 1
                 rebooted_since_op = True
+                continue
+            if st[0] == "wallstep":
+                # the client host's WALL clock is stepped (NTP, an administrator, a VM
+                # resume); no time has passed for anybody
+                env.CLOCK.wall_offset += st[1]
+                R.mon["wall_clock_steps"] += 1
                 continue
             if st[0] == "drift":
                 # the agent's clock runs FAST: its engine time is ahead of what elapsed
@@ -188,6 +195,7 @@ def run_history(R, level, steps, ctx_engine, boots0, report_ctx=None, two_step=F
 
 def run_bad_discovery(R, level, kind):
     env.CLOCK.freeze(1_700_000_000.0)
+    env.CLOCK.wall_offset = 0.0
     w = World(level, DB)
     inner = w.agent.handle
     state = {"n": 0}
@@ -245,8 +253,10 @@ def gen_history(rng):
             steps.append(("op", rng.choice(OPS)))
         elif r < 0.84:
             steps.append(("advance", rng.choice(ADV)))
-        elif r < 0.9:
+        elif r < 0.88:
             steps.append(("drift", rng.choice((10, 140, 160, 400, 86400))))
+        elif r < 0.92:
+            steps.append(("wallstep", rng.choice((-3600, 3600, -86400 * 400, 86400, -151, 151, 0.5))))
         else:
             steps.append(("reboot", 0))
     if steps[-1][0] != "op":
@@ -278,6 +288,7 @@ def run(R):
                 run_bad_discovery(R, level, kind)
             # the named histories of the design
             run_history(R, level, [("op", "get"), ("advance", 151), ("op", "get")], b"", 1)
+            run_history(R, level, [("op", "get"), ("wallstep", -3600), ("op", "get"), ("advance", 10), ("wallstep", 86400), ("op", "set"), ("reboot", 0), ("wallstep", -1000), ("op", "get")], b"", 1)
             run_history(R, level, [("op", "get"), ("advance", 1000), ("drift", 400), ("op", "get"), ("advance", 10), ("op", "set"), ("advance", 200), ("op", "get")], b"", 1)
             run_history(R, level, [("op", "get"), ("drift", 160), ("op", "get"), ("advance", 3600), ("drift", 151), ("op", "walk"), ("op", "get")], b"", 3)
             run_history(R, level, [("op", "get"), ("advance", 151), ("op", "set"), ("reboot", 0), ("op", "get"), ("advance", 400), ("op", "walk")], b"", 5, two_step=True)
